@@ -269,8 +269,9 @@ fn hot_reloading_thread(
             match events.try_recv() {
                 Ok(msg) => cache.handle_events(msg),
                 Err(crossbeam_channel::TryRecvError::Empty) => (),
-                // We won't receive events anymore, we can stop now
-                Err(crossbeam_channel::TryRecvError::Disconnected) => break 'thread,
+                // We won't receive events anymore, but pending and future
+                // requests from the cache still have to be answered
+                Err(crossbeam_channel::TryRecvError::Disconnected) => select.remove(1),
             }
         }
     }
